@@ -110,7 +110,8 @@ class ScalarFormatter(object):
         self._n_significant_digits = n_significant_digits
         _sig = int(-np.floor(np.log10(self._sigma))) + self._n_significant_digits - 1
         # inner rounding needed for errors like 0.9999999 -> 1.0 (shift in decimal place)
-        self._sig = int(-np.floor(np.log10(np.around(self._sigma, _sig)))) + self._n_significant_digits - 1
+        # built-in round (unlike np.around) rounds exactly like the string conversion of the uncertainty
+        self._sig = int(-np.floor(np.log10(round(float(self._sigma), _sig)))) + self._n_significant_digits - 1
 
     def __call__(self, x):
         """Format the input to the precision given by the uncertainty.
@@ -119,7 +120,7 @@ class ScalarFormatter(object):
         :rtype: str
         """
         # needed e.g. when rounding values like 9.999999 -> 10.0 (shift in decimal place)
-        _rounded_x = abs(np.around(x, self._sig))
+        _rounded_x = abs(round(float(x), self._sig))
         # fallback to rounding to 10^(-1) if value is zero
         _log_abs_x = -1
         if _rounded_x:
